@@ -16,6 +16,7 @@ func init() {
 }
 
 func runC02(r *engine.Run) {
+	r.Rule("RET-pair", "every success return of a recursive insert/delete helper of the state trie (results Node, Key, error) hands back a pair that belongs together: both results of one helper call, (nil, nil), or a node with its own GetHashBytes() - the caller rebuilds itself by the kind of the returned node and links the returned key, so a node from one source and a key from another give the parent a non-canonical form")
 	r.Rule("AGREE-hash", "the GetHashBytes of LeafNode, FullNode and ExtensionNode share one skeleton: binary.Write(buf, LittleEndian, receiver.GetOrigin()), then the type's own private encode(buf), then RawHash(buf.Bytes()); each type's Encode writes the node prefix and then calls the same encode function object: hash input = origin || exactly the persisted fields")
 	r.Rule("ORDER-stamp", "in insertNode SetOrigin(trie version) precedes GetHashBytes() of the same node, whose result is the key passed to PutNode for that node, with no mutator call on the node in between")
 	r.Rule("DEP-canon", "every arm that clears a child slot or the value of a branch node and re-inserts it reads the branch's child count and value presence (GetNumChildren/HasValue): an arm that never looks at the child count after removing the value cannot collapse a one-child branch, so the shape (and the root) depends on history")
@@ -49,6 +50,7 @@ func runC02(r *engine.Run) {
 	agreeKindTag(r, "AGREE-kindtag")
 	cloneComplete(r, "CLONE-complete")
 	errGuard(r, "ERR-guard", "ERR-dropped", mptFuncs(r), 15)
+	retPairMPT(r, "RET-pair")
 }
 
 var trieNodeTypes = []string{"LeafNode", "FullNode", "ExtensionNode"}
